@@ -1045,6 +1045,9 @@ func (f *Frugal) validate() error {
 	if err := f.validateConstants(); err != nil {
 		return err
 	}
+	if err := f.validateTypeNames(); err != nil {
+		return err
+	}
 	if err := f.validateTypedefs(); err != nil {
 		return err
 	}
@@ -1158,6 +1161,36 @@ func (f *Frugal) validateConstant(constant *Constant) error {
 	}
 
 	return fmt.Errorf("Invalid constant name %s", name)
+}
+
+// validateTypeNames ensures no two user-defined types share a name.
+func (f *Frugal) validateTypeNames() error {
+	names := make(map[string]struct{})
+	check := func(name string) error {
+		if _, ok := names[name]; ok {
+			return fmt.Errorf("Duplicate type name %s", name)
+		}
+		names[name] = struct{}{}
+		return nil
+	}
+	for _, typedef := range f.Typedefs {
+		if err := check(typedef.Name); err != nil {
+			return err
+		}
+	}
+	for _, enum := range f.Enums {
+		if err := check(enum.Name); err != nil {
+			return err
+		}
+	}
+	for _, structs := range [][]*Struct{f.Structs, f.Unions, f.Exceptions} {
+		for _, s := range structs {
+			if err := check(s.Name); err != nil {
+				return err
+			}
+		}
+	}
+	return nil
 }
 
 func (f *Frugal) validateTypedefs() error {
